@@ -148,6 +148,23 @@ def materialise(root, tree, root_text):
         os.makedirs(os.path.dirname(p), exist_ok=True)
         with open(p, "w", encoding="utf-8", newline="") as f:
             f.write(text)
+    # decoys: for an INCLUDE written inside a file that lives in a sub-folder, a file of the same relative name next to the
+    # INCLUDING file (relative names resolve against the ROOT Mapfile's directory, so these must never be read)
+    for name, text in tree.files.items():
+        d = os.path.dirname(name)
+        if not d:
+            continue
+        for line in text.replace("\r\n", "\n").split("\n"):
+            st = line.strip()
+            if st.lower().startswith("include"):
+                parts = st.split("#")[0].split()
+                if len(parts) >= 2:
+                    target = parts[1].strip("'").strip('"')
+                    dp = os.path.join(root, d, target)
+                    if not os.path.isabs(target) and not os.path.exists(dp):
+                        os.makedirs(os.path.dirname(dp), exist_ok=True)
+                        with open(dp, "w", encoding="utf-8") as f:
+                            f.write('NAME "decoy-next-to-the-including-file"\n')
     with open(os.path.join(root, "root.map"), "w", encoding="utf-8", newline="") as f:
         f.write(root_text)
 
